@@ -231,6 +231,14 @@ func (ws *priorityWriteSchedulerRFC7540) OpenStream(streamID uint32, options Ope
 			panic(fmt.Sprintf("stream %d already opened", streamID))
 		}
 		curr.state = priorityNodeOpenRFC7540
+		// The node is no longer idle: take it off the idle list, so that
+		// later idle nodes cannot evict an open stream from the tree.
+		for i, n := range ws.idleNodes {
+			if n == curr {
+				ws.idleNodes = append(ws.idleNodes[:i], ws.idleNodes[i+1:]...)
+				break
+			}
+		}
 		return
 	}
 
